@@ -315,3 +315,179 @@ func relive(r *hlib.Run, n int) {
 		r.Count("relive:" + kind)
 	}
 }
+
+// ---------- redial: a further dial between two peers that share a cached connection ----------
+
+// one trial. Both transports run their real accept loop. The side that dials e (P when eByP, else Q) calls DialStream:
+// both cache e. Then P dials a further connection c to Q's listener - what getCachedConnection does after a cache miss
+// (its cache check raced with the cache being populated, or a second caller dialed at the same time) - and runs the
+// real handleOutgoing on it; Q's accept loop runs the real handleIncoming on the other end. The harness does nothing
+// else: no connection is killed, no reap is injected. It waits until the connection that lost the negotiation is closed
+// and until everything has settled (closes reached the other end, close-watchers reaped what they watch), then
+// reports, in the vocabulary of the win lines, the two caches, what P's end returned and which connections are closed
+// (lower case: application error 508 / 406, upper case: any other way). Pc=cut: P's end never decided - Q's end decided
+// first and closed c (508) before P's end had read Q's report, so handleOutgoing failed with that application error.
+func redialTrial(cert tls.Certificate, eByP bool) (string, string) {
+	ctx, cancel := context.WithTimeout(context.Background(), 30*time.Second)
+	defer cancel()
+	p, err := newLivePeer(cert)
+	if err != nil {
+		return "", "peer"
+	}
+	defer p.close()
+	q, err := newLivePeer(cert)
+	if err != nil {
+		return "", "peer"
+	}
+	defer q.close()
+	nodeOf := func(x *livePeer) *protocol.Node { return &protocol.Node{Address: x.addr, Id: 1} }
+	cachedP := func() *quic.Conn { return p.t.VerifCachedQuic(nodeOf(q)) }
+	cachedQ := func() *quic.Conn { return q.t.VerifCachedQuic(nodeOf(p)) }
+	live := func(c *quic.Conn) bool { return c != nil && c.Context().Err() == nil }
+
+	from, to := p, q
+	if !eByP {
+		from, to = q, p
+	}
+	dctx, dcancel := context.WithTimeout(ctx, 10*time.Second)
+	st, err := from.t.DialStream(dctx, nodeOf(to), protocol.Stream_RPC)
+	dcancel()
+	if err != nil {
+		return "", "dial-e-" + errKind(err)
+	}
+	st.Close()
+	if !eventually(5*time.Second, func() bool { return live(cachedP()) && live(cachedQ()) }) {
+		return "", "e-not-shared"
+	}
+	eP, eQ := cachedP(), cachedQ()
+	if connID(eP) == "" || connID(eP) != connID(eQ) {
+		return "", "e-not-shared"
+	}
+
+	// the further dial, as in getCachedConnection after the cache check
+	addr, err := net.ResolveUDPAddr("udp", q.addr)
+	if err != nil {
+		return "", "resolve"
+	}
+	cfg := &tls.Config{InsecureSkipVerify: true, NextProtos: []string{"c41"}, ServerName: "127.0.0.1"}
+	cctx, ccancel := context.WithTimeout(ctx, 10*time.Second)
+	cP, err := p.tr.DialEarly(cctx, addr, cfg, overlay.VerifQuicConfig())
+	if err != nil {
+		ccancel()
+		return "", "dial-c-" + errKind(err)
+	}
+	got, herr := p.t.VerifHandleOutgoing(cctx, cP)
+	ccancel()
+	defer cP.CloseWithError(0, "verif: trial over")
+
+	// the connection that lost the negotiation is closed by it; then let the consequences happen
+	eventually(5*time.Second, func() bool { return cP.Context().Err() != nil })
+	settled := func() bool {
+		if live(eP) != live(eQ) {
+			return false
+		}
+		for _, c := range []*quic.Conn{cachedP(), cachedQ()} {
+			if c != nil && !live(c) {
+				return false
+			}
+		}
+		return true
+	}
+	time.Sleep(400 * time.Millisecond)
+	ok := eventually(5*time.Second, settled)
+	time.Sleep(250 * time.Millisecond)
+	if !ok || !eventually(2*time.Second, settled) {
+		return "", "unsettled"
+	}
+
+	idC := connID(cP)
+	name := func(c *quic.Conn) string {
+		switch {
+		case c == nil:
+			return "-"
+		case c == eP || c == eQ:
+			return "e"
+		case c == cP || (idC != "" && connID(c) == idC):
+			return "c"
+		}
+		return "?"
+	}
+	entryOf := func(x *livePeer, c *quic.Conn) string {
+		if c == nil {
+			return "-"
+		}
+		d := "?"
+		for _, v := range x.t.VerifCached() {
+			switch v.Direction {
+			case "Incoming":
+				d = "in"
+			case "Outgoing":
+				d = "out"
+			}
+		}
+		return name(c) + ":" + d
+	}
+	res := "fresh"
+	switch {
+	case herr != nil && errKind(herr) == "app508":
+		// the other end decided first and closed c (508) before this end had read its cache-status report: the
+		// negotiation stream was cut, this end never decided (a failed dial, outside the model)
+		res = "cut"
+	case herr != nil:
+		res = "err"
+	case got != cP:
+		res = "reused:" + name(got)
+	}
+	closed := ""
+	for _, pair := range []struct {
+		a, b *quic.Conn
+		n    string
+	}{{eP, eQ, "e"}, {cP, nil, "c"}} {
+		ka, kb := closeKind(pair.a), closeKind(pair.b)
+		switch {
+		case ka == "neg" || kb == "neg":
+			closed += pair.n
+		case ka != "" || kb != "":
+			closed += strings.ToUpper(pair.n)
+		}
+	}
+	if closed == "" {
+		closed = "-"
+	}
+	return fmt.Sprintf("P=%s;Q=%s;closed=%s;Pc=%s", entryOf(p, cachedP()), entryOf(q, cachedQ()), closed, res), ""
+}
+
+func redialOne(r *hlib.Run, eByP bool) {
+	cert := selfSigned()
+	rhs, setup := redialTrial(cert, eByP)
+	// one more attempt on a loaded machine; and prefer a trial in which P's end got to decide
+	for i := 0; i < 3 && (setup != "" || strings.HasSuffix(rhs, "Pc=cut")); i++ {
+		if setup == "" {
+			r.Count("redial:negotiation-stream-cut")
+		}
+		rhs, setup = redialTrial(cert, eByP)
+	}
+	pre := "e:in e:out"
+	if eByP {
+		pre = "e:out e:in"
+	}
+	r.Raw("# case redial")
+	if setup != "" {
+		rhs = "setup:" + setup
+		r.Count("redial:setup-failed")
+	} else {
+		r.Count("redial:executed")
+		if strings.Contains(rhs, "Pc=reused:e") {
+			r.Count("redial:cached-connection-reused")
+		}
+	}
+	r.Emit("redial "+pre, rhs)
+	r.Case("redial " + pre)
+}
+
+// redial: n rounds of both directions of the shared connection
+func redial(r *hlib.Run, n int) {
+	for i := 0; i < n; i++ {
+		redialOne(r, i%2 == 0)
+	}
+}
